@@ -98,6 +98,15 @@ def mount_variant(repo, variant, dst, access_path, counts):
                 n3 = text.count('#[cfg(target_os = "macos")]')
                 text = text.replace('#[cfg(target_os = "macos")]', '#[cfg(all())] // [verif-mount R3]')
                 counts["R3"] = counts.get("R3", 0) + n3
+            # R5: pointer width of the 32-bit ARM target.  On the target `usize`/`isize` are 32 bits wide,
+            # so a pointer cast to them is truncated / sign-carrying at bit 31; on the 64-bit host the
+            # same text would compute with 64 bits.  In the 32-bit ARM back-end every cast to the
+            # pointer-sized integers goes through the 32-bit type first (the harness keeps every ARM
+            # address below 4 GiB, as the back-end's own `as u32` casts already require).
+            if rel == os.path.join("injector_core", "patch_arm.rs"):
+                text, n5a = re.subn(r"\bas isize\b", "as i32 as isize", text)
+                text, n5b = re.subn(r"\bas usize\b", "as u32 as usize", text)
+                counts["R5"] = counts.get("R5", 0) + n5a + n5b
             # R4: accessors for module-private encoder entry points (only compiled with feature priv_access)
             if rel == os.path.join("injector_core", "patch_arm64.rs"):
                 text = text.rstrip("\n") + "\n" + R4_ARM64
